@@ -465,4 +465,40 @@ def rule_late(ctx):
     ctx.borrow(rule_same, {"C04.SAME": "C03.LATE"}, only=lambda fn: True)
 
 
-RULES = [rule_guard, rule_wrap, rule_init, rule_write, rule_drop, rule_mgr, rule_table, rule_late]
+def rule_cli_user(ctx):
+    p = ctx.p
+    ctx.rule("C03.CLI", "the command-line server protects the account it was given a password for: every `User(...)` built in __main__ receives the --pass value, whatever "
+                        "other options are set (a user built without it is served on USER alone)")
+    tree = p.trees.get("__main__.py")
+    if tree is None:
+        ctx.ob("C03.CLI", p.trees["server.py"], "no __main__ module in this tree", True)
+        return
+    calls = [c for c in ast.walk(tree) if isinstance(c, ast.Call) and last_attr(c.func) == "User"]
+
+    def is_pw(e):
+        return isinstance(e, ast.Attribute) and e.attr in ("password", "pass_", "passwd") and isinstance(e.value, ast.Name)
+    for c in calls:
+        ok = (len(c.args) >= 2 and is_pw(c.args[1])) or any(k.arg == "password" and is_pw(k.value) for k in c.keywords)
+        if not ok:
+            # **options: the dict must get the password at module level, unconditionally
+            for k in [k for k in c.keywords if k.arg is None and isinstance(k.value, ast.Name)]:
+                d = k.value.id
+                for st in tree.body:
+                    if isinstance(st, ast.Assign) and any(isinstance(t, ast.Name) and t.id == d for t in st.targets):
+                        v = st.value
+                        if isinstance(v, ast.Dict) and any(isinstance(kk, ast.Constant) and kk.value == "password" and is_pw(vv) for kk, vv in zip(v.keys, v.values)):
+                            ok = True
+                        if isinstance(v, ast.Call) and isinstance(v.func, ast.Name) and v.func.id == "dict" and any(kw.arg == "password" and is_pw(kw.value) for kw in v.keywords):
+                            ok = True
+                    if isinstance(st, ast.Expr) and isinstance(st.value, ast.Call) and is_method_call(st.value, "update") and src(st.value.func.value) == d \
+                            and any(kw.arg == "password" and is_pw(kw.value) for kw in st.value.keywords):
+                        ok = True
+                    if isinstance(st, ast.Assign) and isinstance(st.targets[0], ast.Subscript) and src(st.targets[0].value) == d and isinstance(st.targets[0].slice, ast.Constant) \
+                            and st.targets[0].slice.value == "password" and is_pw(st.value):
+                        ok = True
+        ctx.ob("C03.CLI", c, f"__main__: `{src(c)[:60]}` is given the configured password", ok,
+               f"__main__ builds `{src(c)[:70]}` without the --pass value on some configuration: that account is logged in by USER alone", construct=f"cli:user without password:{src(c)[:40]}")
+    ctx.floor("C03.CLI", 1, "User(...) constructions in __main__")
+
+
+RULES = [rule_cli_user, rule_guard, rule_wrap, rule_init, rule_write, rule_drop, rule_mgr, rule_table, rule_late]
